@@ -295,6 +295,39 @@ func pluginContain(r *Run, it Item) {
 			}
 		}
 	}
+	// 3c. the two accept loops end only when their context is cancelled: every value they return is
+	// the result of ctx.Err().  Their return value goes to log.Fatal, so returning an Accept error --
+	// which a peer can provoke (descriptor exhaustion, a reset before accept) -- ends the process.
+	for _, key := range []string{"hotline.(*Server).Serve", "hotline.(*Server).ServeFileTransfers"} {
+		fn := e.funcs[key]
+		if fn == nil {
+			r.Errors = append(r.Errors, key+": not found")
+			continue
+		}
+		r.Funcs = append(r.Funcs, key)
+		ok, n := true, 0
+		for _, b := range fn.Blocks {
+			if b == fn.Recover || len(b.Instrs) == 0 {
+				continue
+			}
+			ret, isRet := b.Instrs[len(b.Instrs)-1].(*ssa.Return)
+			if !isRet {
+				continue
+			}
+			n++
+			good := false
+			if len(ret.Results) == 1 {
+				if c, isCall := ret.Results[0].(*ssa.Call); isCall && c.Call.IsInvoke() && c.Call.Method.Name() == "Err" && strings.HasSuffix(c.Call.Value.Type().String(), "context.Context") {
+					good = true
+				}
+			}
+			if !good {
+				ok = false
+			}
+		}
+		yes(key+"#contain:accept-loop-returns-only-on-cancelled-context", ok, e.pos(fn.Pos()))
+		_ = n
+	}
 	// 4. dispatcher
 	containDispatcher(r, e, yes)
 	vc.cover("C03#cover:structural", "structural", "")
